@@ -39,7 +39,7 @@ def model(chk, p):
     chk.model("MC_Units ZeroEntriesKept=TRUE", t, "regression: zero entries kept by Powers::insert violate FactorIff (expected)")
 
 
-FIXED = ["1m + 0s", "1m - 0kg", "0 m + 1 s", "1m + (2s - 2s)", "1 + 0m", "0 + 1m", "1 J/Nm + 1 s", "1 Nm/J to s", "1 kg to W/VA", "1J/N to m", "1 m + 1 J/N", "1J/N + 1m", "1V*A to W", "1 W - 1 V*A", "1C/s to A", "1 A + 1 C/s", "1 N*m to J", "1 Pa*m^2 to N",
+FIXED = ["1 m to s to m", "1 V*A to J to W", "5 to m to s", "1 km to m to s", "1 m^2 + 1 m", "1 m/s - 1 m/s^2", "1 N*m to N/m", "1m + 0s", "1m - 0kg", "0 m + 1 s", "1m + (2s - 2s)", "1 + 0m", "0 + 1m", "1 J/Nm + 1 s", "1 Nm/J to s", "1 kg to W/VA", "1J/N to m", "1 m + 1 J/N", "1J/N + 1m", "1V*A to W", "1 W - 1 V*A", "1C/s to A", "1 A + 1 C/s", "1 N*m to J", "1 Pa*m^2 to N",
          "3 + 1m", "1m + 3", "3 - 1m", "1m - 3", "1 kg to m", "1 m + 1 s", "1 W to J", "1 J/s to W", "1 m^2 to ha", "1 l to m^3", "1 l to m^2",
          "1 km/h to m/s", "1 kt to m/s", "1 Hz to s", "1 Bq to s^-1", "1 ohm to V/A", "1 S to A/V", "1 F to C/V", "1 H to Wb/A", "1 T to Wb/m^2",
          "1 lx to lm/m^2", "1 Gy to J/kg", "1 kat to mol/s", "2 ft + 3 in", "2 ft - 3 lb", "5 mi/hr to km/s", "1 acre to ft^2", "1 gal to l"]
@@ -69,8 +69,12 @@ def generate(rnd, n):
             out.append("%s + %s" % (qa, qb))
         elif form < 0.5:
             out.append("%s - %s" % (qa, qb))
-        elif form < 0.85:
+        elif form < 0.78:
             out.append("%s to %s" % (qa, sb))
+        elif form < 0.85:
+            # a chain of casts: every step must be judged, also when the last one brings the quantity back
+            mid = ug.spell(ug.perturb(a) if rnd.random() < 0.6 else ug.respell(a))
+            out.append("%s to %s to %s" % (qa, mid, sa if rnd.random() < 0.7 else sb))
         elif form < 0.9:
             out.append("%s + %s" % (ugen.magnitude(rnd, True), qa))
         elif form < 0.95:
@@ -103,6 +107,8 @@ def run(chk):
     vlib.build_harness("release")
     model(chk, p)
     rnd = random.Random(chk.seed + 2)
+    qt = lang.quantity_trees(chk, "c02-qty", k=2)
+    run_strings(chk, qt, "c02-qtrees", "exhaustive small trees over quantities", chunk=1500)
     strings = FIXED + generate(rnd, p["pairs"])
     res, recs = run_strings(chk, strings, "c02-pairs", "unit expression pairs")
     ok = sum(1 for r in recs if len(r["res"]) == 1 and r["res"][0]["k"] == "val")
